@@ -100,7 +100,31 @@ pub fn single_fault_plans() -> Vec<String> {
     for e in [5, 38, 13] {
         v.push(format!("statx:*:{e}"));
     }
+    // two faults in a row: part of the text is accepted, then the next write fails (a pipe that fills up, a quota
+    // reached): whatever the program does next, it must not emit the accepted part a second time and report success
+    for n in 0..2 {
+        for e in [4, 11, 28] {
+            v.push(format!("write:{n}:short=17;write:{}:{e}", n + 1));
+        }
+    }
     v
+}
+
+/// Is LD_PRELOAD taking? `--help` makes any build of the program write to stdout, which the shim reports.
+pub fn shim_canary(sandbox: &Path) -> bool {
+    let _ = std::fs::create_dir_all(sandbox);
+    let rp = sandbox.join(".shim-canary");
+    let _ = std::fs::remove_file(&rp);
+    let st = Command::new(bin_path())
+        .arg("--help")
+        .env_clear()
+        .env("LD_PRELOAD", shim_path())
+        .env("XSG_SHIM_REPORT", &rp)
+        .stdin(Stdio::null())
+        .stdout(Stdio::null())
+        .stderr(Stdio::null())
+        .status();
+    st.is_ok() && std::fs::read(&rp).map(|b| !b.is_empty()).unwrap_or(false)
 }
 
 impl CliCase {
